@@ -1188,3 +1188,138 @@ def chk_pickle():
     if js(c) != js(r) or not (c == r):
         return "reloaded Bin: pickle clone differs"
     return None
+
+
+# --------------------------------------------------------------------------- C03: vectorised fill
+
+
+def strip_empty_bins(j):
+    """content comparison up to sparse bins / categories that hold zero weight"""
+    if isinstance(j, dict):
+        out = {}
+        for k, v in j.items():
+            if k == "bins" and isinstance(v, dict):
+                out[k] = {kk: strip_empty_bins(vv) for kk, vv in v.items() if not _is_empty(vv)}
+            else:
+                out[k] = strip_empty_bins(v)
+        return out
+    if isinstance(j, list):
+        return [strip_empty_bins(x) for x in j]
+    return j
+
+
+def _is_empty(v):
+    if isinstance(v, (int, float)):
+        return v == 0
+    if isinstance(v, dict) and "entries" in v:
+        return v["entries"] == 0
+    return False
+
+
+def chk_numpy(K, skip=(), only_kids=None, exclude_kids=()):
+    import numpy as np
+
+    xs = [0.5, NAN, -INF, INF, -1.0, 0.0, 1.0, 2.5, 3.0, 2.9999999999999996, 1.75]
+    cats = ["a", "b", "a", "c", "b", "a", "a", "c", "b", "a", "c"]
+
+    def qxn(d):
+        return d["x"]
+
+    def qyn(d):
+        return d["y"]
+
+    def qsel_n(d):
+        return d["x"] > 0.7
+
+    def qcn(d):
+        return d["c"]
+
+    kids = {
+        "Count": lambda: hg.Count(),
+        "Sum": lambda: hg.Sum(qyn),
+        "Average": lambda: hg.Average(qyn),
+        "Deviate": lambda: hg.Deviate(qyn),
+        "Minimize": lambda: hg.Minimize(qyn),
+        "Maximize": lambda: hg.Maximize(qyn),
+        "Bin2": lambda: hg.Bin(2, 0.0, 1.0, qyn, hg.Count()),
+    }
+
+    def mk(ck):
+        c = kids[ck]
+        return {
+            "Count": lambda: hg.Count(),
+            "Sum": lambda: hg.Sum(qxn),
+            "Average": lambda: hg.Average(qxn),
+            "Deviate": lambda: hg.Deviate(qxn),
+            "Minimize": lambda: hg.Minimize(qxn),
+            "Maximize": lambda: hg.Maximize(qxn),
+            "Bag": lambda: hg.Bag(qxn, "N"),
+            "Bin": lambda: hg.Bin(3, 0.0, 3.0, qxn, c(), c(), c(), c()),
+            "SparselyBin": lambda: hg.SparselyBin(1.0, qxn, c(), c()),
+            "CentrallyBin": lambda: hg.CentrallyBin([0.0, 1.0, 2.5], qxn, c(), c()),
+            "IrregularlyBin": lambda: hg.IrregularlyBin([0.0, 1.0, 2.0], qxn, c(), c()),
+            "Stack": lambda: hg.Stack([0.0, 1.0, 2.0], qxn, c(), c()),
+            "Fraction": lambda: hg.Fraction(qsel_n, c()),
+            "Select": lambda: hg.Select(qsel_n, c()),
+            "Categorize": lambda: hg.Categorize(qcn, c()),
+            "Label": lambda: hg.Label(a=c(), b=c()),
+            "UntypedLabel": lambda: hg.UntypedLabel(a=c(), b=hg.Sum(qxn)),
+            "Index": lambda: hg.Index(c(), c()),
+            "Branch": lambda: hg.Branch(c(), hg.Sum(qxn)),
+        }[K]()
+
+    batches = []
+    for n in (0, 1, 2, 4, len(xs)):
+        for off in (0, 3):
+            sel = [(xs[(off + i) % len(xs)], cats[(off + i) % len(cats)]) for i in range(n)]
+            batches.append(sel)
+    weights_variants = ["one", "scalar", "array"]
+    if K == "Count":
+        return None  # a bare Count has no quantity: outside the property (no fill.numpy entry point)
+    child_kinds_ = ["Count"] if K in LEAVES else ["Count", "Sum", "Average", "Deviate", "Minimize", "Bin2"]
+    if K in ("Label", "Index"):
+        child_kinds_ = child_kinds_[1:]  # all-Count collections have no quantity-bearing node
+    if only_kids is not None:
+        child_kinds_ = [c for c in child_kinds_ if c in only_kids]
+    child_kinds_ = [c for c in child_kinds_ if c not in exclude_kids]
+    for ck in child_kinds_:
+        for rows in batches:
+            if any((K, r[0]) in skip or (ck, r[0]) in skip for r in rows):
+                continue
+            x = np.array([r[0] for r in rows], dtype=float)
+            y = np.array([r[0] if r[0] == r[0] and abs(r[0]) != INF else 0.25 for r in rows], dtype=float)
+            c = np.array([r[1] for r in rows])
+            data = np.rec.fromarrays([x, y, c], names=["x", "y", "c"])
+            for wv in weights_variants:
+                if wv == "one":
+                    wlist, warg = [1.0] * len(rows), None
+                elif wv == "scalar":
+                    wlist, warg = [0.5] * len(rows), 0.5
+                else:
+                    wlist = [(1.0, 0.0, 2.0, 0.5)[i % 4] for i in range(len(rows))]
+                    warg = np.array(wlist)
+                for split in (None, 1) if len(rows) > 1 else (None,):
+                    a, b = mk(ck), mk(ck)
+                    xin, win = x.copy(), (warg.copy() if isinstance(warg, np.ndarray) else None)
+                    try:
+                        if split is None:
+                            a.fill.numpy(data) if warg is None else a.fill.numpy(data, warg)
+                        else:
+                            for lo, hi in ((0, split), (split, len(rows))):
+                                part = data[lo:hi]
+                                if warg is None:
+                                    a.fill.numpy(part)
+                                elif isinstance(warg, np.ndarray):
+                                    a.fill.numpy(part, warg[lo:hi])
+                                else:
+                                    a.fill.numpy(part, warg)
+                    except Exception as e:
+                        return f"{K}[{ck}] fill.numpy raised {e!r} on rows {rows} weights={wv}"
+                    for (xx, cc), w_, yy in zip(rows, wlist, y):
+                        b.fill({"x": xx, "y": float(yy), "c": str(cc)}, w_)
+                    if not np.array_equal(x, xin, equal_nan=True) or (win is not None and not np.array_equal(warg, win)):
+                        return f"{K}[{ck}] fill.numpy modified its input arrays (rows {rows})"
+                    ja, jb = strip_empty_bins(a.toJson()["data"]), strip_empty_bins(b.toJson()["data"])
+                    if not approx_eq(ja, jb, 1e-9):
+                        return f"{K}[{ck}] fill.numpy != per-row fill for rows {rows} weights={wv} split={split}: {json.dumps(ja, sort_keys=True)[:260]} vs {json.dumps(jb, sort_keys=True)[:260]}"
+    return None
